@@ -8,7 +8,7 @@
    data prefix byte-identical; the reader locates that footer.  The thrift content of the footer
    (schema, row groups) is C10's round trip; here the footer is an opaque byte string.            *)
 From Coq Require Import NArith Arith List Bool.
-From Pq Require Import Base.Bytes Impl.KV Proofs.KVProofs.
+From Pq Require Import Base.Bytes Impl.KV Proofs.KVProofs Impl.KVRead Proofs.KVReadProofs Impl.ParseHeader Proofs.ParseHeaderProofs Impl.PyList Proofs.KVFoldProofs.
 Import ListNotations.
 
 Theorem C16_kv_spec :
@@ -55,3 +55,75 @@ Example C16_nonvacuous :
   = framed [80;65;82;49;0]%N [7;8;9;10]%N
   /\ update_kv N.eqb [(1,10);(2,20);(3,30)]%N [(2,None);(4,Some 40);(1,Some 11)]%N = [(1,11);(3,30);(4,40)]%N.
 Proof. split; vm_compute; reflexivity. Qed.
+
+(* ---- wave 3: the READ side (ParquetFile.key_value_metadata) and entries WITHOUT value -------------------------------
+
+   A text value (str or bytes) given at write / update time is stored as its bytes (ensure_bytes) and handed out by
+   ensure_str(., ignore_error=True): a str comes back as that str; bytes come back as the same bytes, as str exactly when
+   they are well-formed UTF-8 (utf8_valid: Unicode table 3-7).  Key and value are decoded independently.               *)
+Theorem C16_read_value_verbatim : forall x, pstr_wf x = true ->
+  ensure_str_ie (ensure_bytes x) =
+    match x with PStr s => PStr s | PBytes b => if utf8_valid b then PStr b else PBytes b end.
+Proof. exact read_value_verbatim. Qed.
+Print Assumptions C16_read_value_verbatim.
+
+Theorem C16_read_entry_independent : forall k ov,
+  read_entry (ensure_bytes k, option_map ensure_bytes ov) = (canon k, option_map canon ov).
+Proof. exact read_entry_independent. Qed.
+Print Assumptions C16_read_entry_independent.
+
+(* with distinct keys the mapping is the footer's entry list, decoded entry by entry, in order *)
+Theorem C16_read_kvm_is_entry_list : forall l, NoDup (map fst l) -> read_kvm l = map read_entry l.
+Proof. exact read_kvm_nodup. Qed.
+Print Assumptions C16_read_kvm_is_entry_list.
+
+(* END TO END inside the model: footer entry list with distinct keys (values possibly ABSENT - legal in the IDL),
+   ANY update dict (str or bytes keys and values, None = remove), then the mapping the reader hands out *)
+Theorem C16_read_after_update : forall old u k,
+  NoDup (map fst old) -> NoDup (map fst (enc_u u)) ->
+  lookup pstr_eqb (ensure_str_ie k) (read_kvm (update_kvo old u)) =
+    match lookup_u bytes_eqb k (enc_u u) with
+    | Some None => None
+    | Some (Some v) => Some (option_map ensure_str_ie v)
+    | None => option_map (option_map ensure_str_ie) (lookup bytes_eqb k old)
+    end.
+Proof. exact read_after_update. Qed.
+Print Assumptions C16_read_after_update.
+
+(* an entry without value is PRESENT (lookup = Some None, not None): naming it with None removes it and the list gets shorter *)
+Theorem C16_remove_valueless : forall old u k,
+  NoDup (map fst old) -> NoDup (map fst (enc_u u)) ->
+  lookup bytes_eqb k old = Some None -> lookup_u bytes_eqb k (enc_u u) = Some None ->
+  lookup bytes_eqb k (update_kvo old u) = None
+  /\ (length (update_kvo old u) < length old + length u)%nat.
+Proof. exact remove_valueless. Qed.
+Print Assumptions C16_remove_valueless.
+
+(* C16 o C10: after ANY sequence of in-place rewrites the reader (api._parse_header model) hands the LAST footer to the parser *)
+Theorem C16_reader_finds_last_footer : forall data footer (fs : list bytes) verify,
+  (N.of_nat (length (last fs footer)) < 2 ^ 32)%N ->
+  (verify = true -> firstn 4 (data ++ last fs footer) = magic) ->
+  parse_header false verify
+    (fold_left (fun f ft => rewrite_footer true f (length data) ft) fs (framed data footer))
+  = Some (last fs footer, N.of_nat (length (last fs footer))).
+Proof. exact parse_header_after_rewrites. Qed.
+Print Assumptions C16_reader_finds_last_footer.
+
+(* the FAITHFUL loop of update_custom_metadata (position looked up in the spare key list `kvm_keys`, which lags behind after an
+   append) computes update_kv for EVERY update list with distinct keys; genproofs/GenKVProofs.v proves on every run that the
+   regenerated source IS this loop (gen_kv_function_is_model) *)
+Theorem C16_faithful_loop_is_update_kv :
+  forall (K V : Type) (keqb : K -> K -> bool), (forall a b, reflect (a = b) (keqb a b)) ->
+  forall (u : list (K * option V)) (kvm : list (K * V)), NoDup (map fst u) ->
+    option_map fst (fold_left (kstep K V keqb) u (Some (kvm, map fst kvm))) = Some (update_kv keqb kvm u).
+Proof. exact fold_update1_keys_start. Qed.
+Print Assumptions C16_faithful_loop_is_update_kv.
+
+Example C16_read_nonvacuous :
+  (* 'sha256' -> non-UTF-8 digest: text key, binary value; a value-less entry; an overlong / surrogate / truncated form *)
+  read_kvm [([115;104;97]%N, Some [255;0;1]%N); ([102]%N, None); ([195;169]%N, Some [195;169]%N)]
+    = [(PStr [115;104;97]%N, Some (PBytes [255;0;1]%N)); (PStr [102]%N, None); (PStr [195;169]%N, Some (PStr [195;169]%N))]
+  /\ utf8_valid [192;175]%N = false /\ utf8_valid [237;160;128]%N = false /\ utf8_valid [226;130]%N = false
+  /\ utf8_valid [240;159;152;128]%N = true /\ utf8_valid [244;144;128;128]%N = false
+  /\ update_kvo [([102]%N, None); ([103]%N, Some [1]%N)] [(PStr [102]%N, None)] = [([103]%N, Some [1]%N)].
+Proof. repeat split; vm_compute; reflexivity. Qed.
